@@ -5,7 +5,7 @@
 
 Outcome: dict(violation=None|{cls,msg,attrs,step}, digest, nontrivial, stats, extra)
 """
-from ..common import rng_for, digest, canon, tuplify, same, plain
+from ..common import rng_for, digest, canon, tuplify, same, plain, h64
 from .model import Spec, Model, path_str, step_kind
 from .gen import swarm_config, gen_spec, HistoryGen
 from .execute import Exec, Violation, PROPAGATING
@@ -1188,7 +1188,11 @@ class C11:
                         continue
                     for p, a in pre:
                         D.mgr.register(xd.tasks.ExprTask(D.ref(p), D.build(a)))
-                    bindings = {label: D.rootref[label][key]} if wrap else None
+                    # the docstring describes bindings keyed by the source container's reference; the label works too
+                    bkey = S.mgr.containers[label] if h64("bindkey", salt, ri, overwrite, len(pre)) % 2 else label
+                    bindings = {bkey: D.rootref[label][key]} if wrap else None
+                    if wrap and bkey is not label:
+                        ex.count("copy_bindings_keyed_by_reference")
                     shadow = []
                     if wrap:
                         # the destination may already hold definitions at label[k] - beside the holder - whose printed
